@@ -161,7 +161,7 @@ Proof. vm_compute. reflexivity. Qed.
 Example O01_body_goose_Ctx_funcDecl :
   has_body func_bodies "goose.Ctx.funcDecl"
     "func(d *ast.FuncDecl) coq.FuncDecl"
-    "{ fd := coq.FuncDecl{Name: d.Name.Name, AddTypes: ctx.PkgConfig.TypeCheck, TypeParams: ctx.typeParamList(d.Type.TypeParams), } addSourceDoc(d.Doc, &fd.Comment) ctx.addSourceFile(d, &fd.Comment) if d.Recv != nil { if len(d.Recv.List) != 1 { ctx.nope(d, ""function with multiple receivers"") } rcvr := d.Recv.List[0] rcvrTy := rcvr.Type if star, ok := rcvrTy.(*ast.StarExpr); ok { rcvrTy = star.X } ident, ok := rcvrTy.(*ast.Ident) if !ok { ctx.unsupported(rcvr, ""unexpected function receiver type: %s"", ctx.printGo(rcvrTy)) } fd.Name = coq.MethodName(ident.Name, d.Name.Name) fd.Args = append(fd.Args, ctx.field(rcvr)) } fd.Args = append(fd.Args, ctx.paramList(d.Type.Params)...) fd.ReturnType = ctx.returnType(d.Type.Results) fd.Body = ctx.blockStmt(d.Body, ExprValReturned) ctx.dep.addName(fd.Name) return fd }" = true.
+    "{ if d.Name.Name == ""_"" { ctx.unsupported(d.Name, ""function named _"") } fd := coq.FuncDecl{Name: d.Name.Name, AddTypes: ctx.PkgConfig.TypeCheck, TypeParams: ctx.typeParamList(d.Type.TypeParams), } addSourceDoc(d.Doc, &fd.Comment) ctx.addSourceFile(d, &fd.Comment) if d.Recv != nil { if len(d.Recv.List) != 1 { ctx.nope(d, ""function with multiple receivers"") } rcvr := d.Recv.List[0] rcvrTy := rcvr.Type if star, ok := rcvrTy.(*ast.StarExpr); ok { rcvrTy = star.X } ident, ok := rcvrTy.(*ast.Ident) if !ok { ctx.unsupported(rcvr, ""unexpected function receiver type: %s"", ctx.printGo(rcvrTy)) } fd.Name = coq.MethodName(ident.Name, d.Name.Name) fd.Args = append(fd.Args, ctx.field(rcvr)) } fd.Args = append(fd.Args, ctx.paramList(d.Type.Params)...) fd.ReturnType = ctx.returnType(d.Type.Results) fd.Body = ctx.blockStmt(d.Body, ExprValReturned) ctx.dep.addName(fd.Name) return fd }" = true.
 Proof. vm_compute. reflexivity. Qed.
 
 Example O01_body_goose_Ctx_funcLit :
@@ -215,7 +215,7 @@ Proof. vm_compute. reflexivity. Qed.
 Example O01_body_goose_Ctx_callExpr :
   has_body func_bodies "goose.Ctx.callExpr"
     "func(s *ast.CallExpr) coq.Expr"
-    "{ isBuiltin := func(name string) bool { id, ok := s.Fun.(*ast.Ident) return ok && id.Name == name && ctx.goBuiltin(id) } if isBuiltin(""make"") { return ctx.makeExpr(s.Args) } if isBuiltin(""new"") { return ctx.newExpr(s.Args[0]) } if isBuiltin(""len"") { return ctx.lenExpr(s) } if isBuiltin(""cap"") { return ctx.capExpr(s) } if isBuiltin(""append"") { elemTy := sliceElem(ctx.typeOf(s.Args[0]).Underlying()) if s.Ellipsis == token.NoPos { return coq.NewCallExpr(coq.GallinaIdent(""SliceAppend""), ctx.coqTypeOfType(s, elemTy), ctx.expr(s.Args[0]), ctx.expr(s.Args[1])) } return coq.NewCallExpr(coq.GallinaIdent(""SliceAppendSlice""), ctx.coqTypeOfType(s, elemTy), ctx.expr(s.Args[0]), ctx.expr(s.Args[1])) } if isBuiltin(""copy"") { return ctx.copyExpr(s, s.Args[0], s.Args[1]) } if isBuiltin(""delete"") { if _, ok := ctx.typeOf(s.Args[0]).(*types.Map); !ok { ctx.unsupported(s, ""delete on non-map"") } return coq.NewCallExpr(coq.GallinaIdent(""MapDelete""), ctx.expr(s.Args[0]), ctx.expr(s.Args[1])) } if isBuiltin(""uint64"") { return ctx.integerConversion(s, s.Args[0], 64) } if isBuiltin(""uint32"") { return ctx.integerConversion(s, s.Args[0], 32) } if isBuiltin(""uint8"") || isBuiltin(""byte"") { return ctx.integerConversion(s, s.Args[0], 8) } if isBuiltin(""panic"") { msg := ""oops"" if e, ok := s.Args[0].(*ast.BasicLit); ok { if e.Kind == token.STRING { v := ctx.info.Types[e].Value msg = constant.StringVal(v) } } msg = strings.ReplaceAll(msg, ""\"""", ""\""\"""") return coq.NewCallExpr(coq.GallinaIdent(""Panic""), coq.GallinaString(msg)) } if _, ok := s.Fun.(*ast.SelectorExpr); ok { } else { if signature, ok := ctx.typeOf(s.Fun).(*types.Signature); ok { for j := 0; j < signature.Params().Len(); j++ { if _, ok := signature.Params().At(j).Type().Underlying().(*types.Interface); ok { interfaceName := signature.Params().At(j).Type().String() structName := ctx.typeOf(s.Args[0]).String() interfaceName = unqualifyName(interfaceName) structName = unqualifyName(structName) if interfaceName != structName && interfaceName != """" && structName != """" { conversion := coq.StructToInterfaceDecl{ Fun: ctx.expr(s.Fun).Coq(true), Struct: structName, Interface: interfaceName, Arg: ctx.expr(s.Args[0]).Coq(true), }.Coq(true) for i, arg := range s.Args { if i > 0 { conversion += "" "" + ctx.expr(arg).Coq(true) } } return coq.CallExpr{MethodName: coq.GallinaIdent(conversion)} } } } } } return ctx.methodExpr(s) }" = true.
+    "{ isBuiltin := func(name string) bool { id, ok := s.Fun.(*ast.Ident) return ok && id.Name == name && ctx.goBuiltin(id) } if isBuiltin(""make"") { return ctx.makeExpr(s.Args) } if isBuiltin(""new"") { return ctx.newExpr(s.Args[0]) } if isBuiltin(""len"") { return ctx.lenExpr(s) } if isBuiltin(""cap"") { return ctx.capExpr(s) } if isBuiltin(""append"") { elemTy := sliceElem(ctx.typeOf(s.Args[0]).Underlying()) if s.Ellipsis == token.NoPos { return coq.NewCallExpr(coq.GallinaIdent(""SliceAppend""), ctx.coqTypeOfType(s, elemTy), ctx.expr(s.Args[0]), ctx.expr(s.Args[1])) } return coq.NewCallExpr(coq.GallinaIdent(""SliceAppendSlice""), ctx.coqTypeOfType(s, elemTy), ctx.expr(s.Args[0]), ctx.expr(s.Args[1])) } if isBuiltin(""copy"") { return ctx.copyExpr(s, s.Args[0], s.Args[1]) } if isBuiltin(""delete"") { if _, ok := ctx.typeOf(s.Args[0]).(*types.Map); !ok { ctx.unsupported(s, ""delete on non-map"") } return coq.NewCallExpr(coq.GallinaIdent(""MapDelete""), ctx.expr(s.Args[0]), ctx.expr(s.Args[1])) } if isBuiltin(""uint64"") { return ctx.integerConversion(s, s.Args[0], 64) } if isBuiltin(""uint32"") { return ctx.integerConversion(s, s.Args[0], 32) } if isBuiltin(""uint8"") || isBuiltin(""byte"") { return ctx.integerConversion(s, s.Args[0], 8) } if isBuiltin(""panic"") { msg := ""oops"" if e, ok := s.Args[0].(*ast.BasicLit); ok { if e.Kind == token.STRING { v := ctx.info.Types[e].Value msg = constant.StringVal(v) } } msg = strings.ReplaceAll(msg, ""\"""", ""\""\"""") return coq.NewCallExpr(coq.GallinaIdent(""Panic""), coq.GallinaString(msg)) } if len(s.Args) == 1 { if tuple, ok := ctx.typeOf(s.Args[0]).(*types.Tuple); ok && tuple.Len() > 1 { ctx.unsupported(s, ""call whose arguments are the results of a multi-valued call"") } } if _, ok := s.Fun.(*ast.SelectorExpr); ok { } else { if signature, ok := ctx.typeOf(s.Fun).(*types.Signature); ok { for j := 0; j < signature.Params().Len(); j++ { if _, ok := signature.Params().At(j).Type().Underlying().(*types.Interface); ok { interfaceName := signature.Params().At(j).Type().String() structName := ctx.typeOf(s.Args[0]).String() interfaceName = unqualifyName(interfaceName) structName = unqualifyName(structName) if interfaceName != structName && interfaceName != """" && structName != """" { conversion := coq.StructToInterfaceDecl{ Fun: ctx.expr(s.Fun).Coq(true), Struct: structName, Interface: interfaceName, Arg: ctx.expr(s.Args[0]).Coq(true), }.Coq(true) for i, arg := range s.Args { if i > 0 { conversion += "" "" + ctx.expr(arg).Coq(true) } } return coq.CallExpr{MethodName: coq.GallinaIdent(conversion)} } } } } } return ctx.methodExpr(s) }" = true.
 Proof. vm_compute. reflexivity. Qed.
 
 Example O01_body_goose_Ctx_methodExpr :
@@ -251,7 +251,7 @@ Proof. vm_compute. reflexivity. Qed.
 Example O01_body_goose_Ctx_sliceExpr :
   has_body func_bodies "goose.Ctx.sliceExpr"
     "func(e *ast.SliceExpr) coq.Expr"
-    "{ if e.Slice3 { ctx.unsupported(e, ""3-index slice"") return nil } if e.Max != nil { ctx.unsupported(e, ""setting the max capacity in a slice expression is not supported"") return nil } x := ctx.expr(e.X) if e.Low != nil && e.High == nil { return coq.NewCallExpr(coq.GallinaIdent(""SliceSkip""), ctx.coqTypeOfType(e, sliceElem(ctx.typeOf(e.X))), x, ctx.expr(e.Low)) } if e.Low == nil && e.High != nil { return coq.NewCallExpr(coq.GallinaIdent(""SliceTake""), x, ctx.expr(e.High)) } if e.Low != nil && e.High != nil { return coq.NewCallExpr(coq.GallinaIdent(""SliceSubslice""), ctx.coqTypeOfType(e, sliceElem(ctx.typeOf(e.X))), x, ctx.expr(e.Low), ctx.expr(e.High)) } if e.Low == nil && e.High == nil { ctx.unsupported(e, ""complete slice doesn't do anything"") } return nil }" = true.
+    "{ if e.Slice3 { ctx.unsupported(e, ""3-index slice"") return nil } if e.Max != nil { ctx.unsupported(e, ""setting the max capacity in a slice expression is not supported"") return nil } if _, ok := ctx.typeOf(e.X).Underlying().(*types.Slice); !ok { ctx.unsupported(e, ""slice expression on %v (only slices are supported)"", ctx.typeOf(e.X)) return nil } x := ctx.expr(e.X) if e.Low != nil && e.High == nil { return coq.NewCallExpr(coq.GallinaIdent(""SliceSkip""), ctx.coqTypeOfType(e, sliceElem(ctx.typeOf(e.X))), x, ctx.expr(e.Low)) } if e.Low == nil && e.High != nil { return coq.NewCallExpr(coq.GallinaIdent(""SliceTake""), x, ctx.expr(e.High)) } if e.Low != nil && e.High != nil { return coq.NewCallExpr(coq.GallinaIdent(""SliceSubslice""), ctx.coqTypeOfType(e, sliceElem(ctx.typeOf(e.X))), x, ctx.expr(e.Low), ctx.expr(e.High)) } if e.Low == nil && e.High == nil { ctx.unsupported(e, ""complete slice doesn't do anything"") } return nil }" = true.
 Proof. vm_compute. reflexivity. Qed.
 
 Example O01_body_goose_Ctx_selectExpr :
